@@ -8,7 +8,7 @@ PROPS = {
         lean_targets=["SJ.Props.C05", "SJ.Audit.C05"],
         configs=dict(quick=["d"], thorough=["d"]),
         gen_keys=["escape.", "hex.", "swar.", "Escape", "Hex", "Swar"],
-        allowed_axioms=[r".*\._native\.bv_decide\.ax_.*"],
+        allowed_axioms=[],
         rule="esc/escbufs: every Unicode scalar value as a one-character string (quick: all below U+3000, every 251st, "
              "surrogate-adjacent and plane boundaries, a random 1%), every byte < 0x80 at every offset of strings of every "
              "length 0..24 over ASCII and mixed 1-4-byte filler, adjacent/leading/trailing escapes, random mixtures up to 500 "
@@ -19,8 +19,8 @@ PROPS = {
              "ByteBuf from str/slice/reader (quick: &str-from-slice always plus one rotating combination), two-special and "
              "multi-chunk contents, random contents. Non-trivial: esc — the string has a byte that must be escaped or a "
              "non-ASCII character; hex4 — every group; scan — non-empty content; distinct = distinct case lines.",
-        trusted_base=[KERNEL + "; plus bv_decide's per-call axioms (SAT certificate checked by compiled code, Lean.ofReduceBool "
-                      "trust) for the two SWAR chunk lemmas and the two hex OR/shift lemmas",
+        trusted_base=[KERNEL + " (the two SWAR chunk lemmas and the two hex OR/shift lemmas are kernel-checked too: byte-wise "
+                      "borrow ripple with 256-case byte lemmas, and toNat/msb arithmetic - no bv_decide, no SAT certificate)",
                       TIE,
                       "memchr::memchr2 specified as 'index of the first occurrence of either needle' (external crate)",
                       "u64::from_le_bytes / wrapping_sub / trailing_zeros / chunks_exact modelled by their documented semantics on BitVec 64"],
@@ -37,14 +37,16 @@ PROPS = {
                  "(c05_hex_tables, c05_hex4_spec) and the SWAR scanner (c05_swar_first_escape, c05_swar_in_bounds, "
                  "c05_first_escape_char)"],
         technique="Lean 4 theorems over all byte strings / all 2^32 hex groups / all slices and start indices; ESCAPE, HEX0/HEX1 "
-                  "pieces and SWAR constants regenerated from source each run; bv_decide for the 64-bit chunk facts; differential "
+                  "pieces and SWAR constants regenerated from source each run; the 64-bit chunk facts by a byte-wise borrow-ripple induction "
+                  "(one 256-case kernel evaluation per byte fact); differential "
                   "run of escaping, \\u decoding and the scanner against the crate",
         level_text="Machine-checked Lean 4 theorems: the table-driven format_escaped_str equals the statement's per-character "
                    "escaping for every string and cuts its buffers only at ASCII bytes; decode_four_hex_digits equals the "
                    "positional hex value or None for all 2^32 groups; SliceRead::skip_to_escape (64-bit SWAR + memchr2 branch + "
                    "slow tail) returns the first escape index for every slice, index and mode. Tables and constants are "
                    "re-extracted from src/ser.rs and src/read.rs on every run and the models are run against the real crate.",
-        level_note="Trusted: Lean kernel + propext/Classical.choice/Quot.sound + bv_decide axioms (4 calls); extract.py; the "
+        level_note="Trusted: Lean kernel + propext/Classical.choice/Quot.sound (no other axiom: the SWAR and hex word identities are "
+                   "kernel-checked, not bv_decide); extract.py; the "
                    "harness/driver comparison; memchr2 and Rust integer primitives by documented semantics. Partial: the string "
                    "decoder itself (escapes, surrogate pairing, UTF-8 validation, borrowing) belongs to the parser machine and "
                    "is not covered by this branch.",
@@ -163,16 +165,15 @@ PROPS = {
                       "serde's f64/f32 primitive visitors (visit_u64/visit_i64/visit_f64 = `as` casts) and "
                       "Number::as_f64 modelled by their source"],
         assumptions=["IEEE-754 conformance of rustc constant evaluation and of the target's f64 multiply/divide/convert",
-                     "i32 exponent arithmetic does not wrap: literals shorter than 2^30 digits"],
-        partial=["c08_within_5ulp_partial: proved for one table operation (|exponent| <= 308; for divisions exact value >= "
-                 "2^-1021); missing: the `f /= 1e308` stepping below 1e-308, subnormal results, and the lift to literals "
-                 "whose digits beyond u64 are dropped - covered by the exact-rational oracle sweep only",
-                 "c08_overflow_direction_partial: proved at f64_from_parts (rejected => exact >= 2^1024-2^970-2^972; exact >= "
-                 "2^1024+2^972 => rejected); missing: lift through digit dropping and the parse_exponent_overflow path; "
-                 "'every value >= 2^1024 is rejected' is FALSE on the pinned code (known finding C08-F1)",
-                 "c08_underflow_zero_partial: proved at f64_from_parts for every exponent (exact value <= 2^-1076 => +-0, and "
-                 "every zero significand => +-0); missing: the lift to literals with dropped digits; values in "
-                 "(2^-1076, 2^-1075) may legitimately give the least subnormal (1 ulp)",
+                     "i32 exponent arithmetic does not wrap: literals shorter than 2^30 digits (the explicit hypothesis "
+                     "`digits.length < 2^30` of c08_within_5ulp, c08_underflow_zero, c08_rejected_only_near_threshold, "
+                     "c08_overflow_direction_partial, `fracDigits.length < 2^30` of c08_exact_short; beyond it the parser's exponent bookkeeping is meaningless: `1`, 2^31 zeros, "
+                     "`e-2147483648` is deserialised to 0)"],
+        partial=["c08_overflow_direction_partial (and c08p_…): proved for every grammatical literal with fewer than 2^30 digits, "
+                 "against its exact value: rejected => exact >= 2^1024-2^970-2^972 (this half is the full clause "
+                 "c08_rejected_only_near_threshold), exact >= 2^1024+2^972+2^965 => rejected, through digit dropping and the "
+                 "parse_exponent_overflow path. Not provable because FALSE on the pinned code: 'every value >= 2^1024 is "
+                 "rejected' (known finding C08-F1, kernel-checked witness c08_accepts_above_2pow1024); nothing else is missing",
                  "c08_f32_once: holds for float-path literals and integers below 2^53; FALSE for u64/i64-path integers above "
                  "2^53 (serde casts the integer directly; known finding C08-F2, kernel-checked counterexample "
                  "c08_f32_once_fails_on_large_int)"],
@@ -186,19 +187,28 @@ PROPS = {
                    "most 15 significant digits and net decimal exponent within +-22 the model of from_str::<f64> returns the "
                    "correctly rounded value (c08_exact_short, and c08_exact_short_parts for any significand < 2^53); every "
                    "result is finite and carries the literal's sign incl. -0 (c08_finite_signed); f32 = f64 result cast once "
-                   "on the float path (c08_f32_once); overflow direction, zero/underflow and the 5-ulp bound are proved at "
-                   "f64_from_parts for table exponents (…_partial). The parser machine of C01/C02 converts numbers with an "
+                   "on the float path (c08_f32_once); for EVERY grammatical literal with fewer than 2^30 digits, against its exact "
+                   "rational value: an accepted result is within 5 ulp, ulp of the correctly rounded value, 2^-1074 through the "
+                   "subnormals (c08_within_5ulp; the proof bounds every path of f64_from_parts - table multiply/divide, the "
+                   "`/= 1e308` stepping, subnormal quotients - by 4.001*2^-53 relative + 0.56*2^-1074, and the digits dropped "
+                   "after u64 overflow by 10^-18 relative, the parsed value never exceeding the exact one); exact value <= "
+                   "2^-1076 gives +-0 (c08_underflow_zero); rejected only if exact >= 2^1024-2^970-2^972 "
+                   "(c08_rejected_only_near_threshold) and always if exact >= 2^1024+2^972+2^965 "
+                   "(c08_overflow_direction_partial; the gap up from 2^1024 is finding C08-F1); the same at f64_from_parts for "
+                   "every u64 significand and exponent (…_parts). The parser machine of C01/C02 converts numbers with an "
                    "independently written transcription (Model.Num.convertDefault); c08p_link proves it equal to the C08 model on "
                    "everything the scanner produces, and SJ.Props.C08Parser restates the theorems about parseTop on every RFC 8259 "
                    "number literal, every source, default configuration (c08p_parse_number, c08p_outcome, c08p_finite_signed, "
-                   "c08p_exact_short, c08p_*_partial). The 309-entry POW10 table, the overflow! macro body and "
+                   "c08p_exact_short, c08p_within_5ulp, c08p_underflow_zero, c08p_rejected_only_near_threshold, "
+                   "c08p_overflow_direction_partial - all against the exact value of the literal read off the bytes, "
+                   "c08p_literal_reading). The 309-entry POW10 table, the overflow! macro body and "
                    "the loop constants are regenerated from the source and re-proved on every run; the model is bit-exact "
                    "against the crate on all generated literals and the exact-rational specification is evaluated on the "
                    "crate's own outputs.",
         level_note="Trusted: Lean kernel + propext/Classical.choice/Quot.sound; extract.py; harness/driver comparison; IEEE "
-                   "conformance of rustc literals and hardware ops; serde's primitive visitors. Partial: c08_within_5ulp_partial "
-                   "(|e|<=308, normal results), c08_overflow_direction_partial and c08_underflow_zero_partial (stated at "
-                   "f64_from_parts). Two open known findings on the pinned tree: C08-F1 (literals in [2^1024, 2^1024+2^972) "
+                   "conformance of rustc literals and hardware ops; serde's primitive visitors. The 5-ulp, underflow and "
+                   "rejected-only-near-threshold clauses are proved for all literals (< 2^30 digits); the only clauses not "
+                   "proved are the two that are false on the pinned code. Two open known findings on the pinned tree: C08-F1 (literals in [2^1024, 2^1024+2^972) "
                    "can be accepted as f64::MAX) and C08-F2 (f32 from u64/i64-path integers is a direct cast, not f64 rounded "
                    "once).",
     ),
